@@ -2857,3 +2857,109 @@ func ruleUnitDecoderReads(c *eng.Ctx) {
 		})
 	}
 }
+
+// R2.21 [C02]
+func ruleIndexPairOrdered(c *eng.Ctx) {
+	const R = "R2.21-INDEX-PAIR-ORDERED"
+	c.Rule(R, "a string is cut between two positions found by two searches (s[i+1:j] with i and j from strings.Index and its relatives) only where j cannot lie before i: the second search ran on the part of the string after i, or the two positions were compared on the way. A closing bracket that happens to stand before the opening one otherwise makes the slice expression panic (slice bounds out of range)", 5, 1)
+	isSearch := func(v ssa.Value) (*ssa.Call, bool) {
+		call, ok := v.(*ssa.Call)
+		if !ok {
+			return nil, false
+		}
+		switch eng.CalleeName(call) {
+		case "strings.Index", "strings.IndexByte", "strings.IndexRune", "strings.IndexAny", "strings.LastIndex", "strings.LastIndexByte", "strings.LastIndexAny", "bytes.Index", "bytes.IndexByte", "bytes.LastIndex", "bytes.LastIndexByte", "bytes.IndexAny":
+			return call, true
+		}
+		return nil, false
+	}
+	// the searches a position derives from (through +c and phis)
+	var searchesOf func(v ssa.Value, seen map[ssa.Value]bool, out map[*ssa.Call]bool)
+	searchesOf = func(v ssa.Value, seen map[ssa.Value]bool, out map[*ssa.Call]bool) {
+		if v == nil || seen[v] {
+			return
+		}
+		seen[v] = true
+		if call, ok := isSearch(v); ok {
+			out[call] = true
+			return
+		}
+		switch x := v.(type) {
+		case *ssa.BinOp:
+			if x.Op == token.ADD || x.Op == token.SUB {
+				searchesOf(x.X, seen, out)
+				searchesOf(x.Y, seen, out)
+			}
+		case *ssa.Phi:
+			for _, e := range x.Edges {
+				searchesOf(e, seen, out)
+			}
+		}
+	}
+	for _, fn := range c.P.ModuleFuncs() {
+		if fn.Blocks == nil {
+			continue
+		}
+		n := 0
+		eng.Instrs(fn, false, func(in ssa.Instruction) {
+			sl, ok := in.(*ssa.Slice)
+			if !ok || sl.Low == nil || sl.High == nil {
+				return
+			}
+			if _, isC := eng.ConstInt(sl.Low); isC {
+				return
+			}
+			lo, hi := map[*ssa.Call]bool{}, map[*ssa.Call]bool{}
+			searchesOf(sl.Low, map[ssa.Value]bool{}, lo)
+			searchesOf(sl.High, map[ssa.Value]bool{}, hi)
+			if len(lo) == 0 || len(hi) == 0 {
+				return
+			}
+			n++
+			key := fmt.Sprintf("%s#cut%d", eng.FuncName(fn), n)
+			// (1) every search behind the upper bound ran on a part of the string that starts at the lower position
+			after := true
+			for h := range hi {
+				arg, ok := h.Call.Args[0].(*ssa.Slice)
+				okH := false
+				if ok && arg.Low != nil {
+					from := map[*ssa.Call]bool{}
+					searchesOf(arg.Low, map[ssa.Value]bool{}, from)
+					all := len(from) > 0
+					for l := range lo {
+						if !from[l] {
+							all = false
+						}
+					}
+					okH = all
+				}
+				if lo[h] { // the same search on both sides (s[i:i+k])
+					okH = true
+				}
+				if !okH {
+					after = false
+				}
+			}
+			// (2) or the two bounds were compared on the way here
+			compared := eng.GuardedBy(fn, sl.Block(), func(f eng.Fact) bool {
+				op, x, y, ok := f.Cmp()
+				if !ok || op == token.EQL || op == token.NEQ {
+					return false
+				}
+				sx, sy := map[*ssa.Call]bool{}, map[*ssa.Call]bool{}
+				searchesOf(x, map[ssa.Value]bool{}, sx)
+				searchesOf(y, map[ssa.Value]bool{}, sy)
+				inter := func(a, b map[*ssa.Call]bool) bool {
+					for k := range a {
+						if b[k] {
+							return true
+						}
+					}
+					return false
+				}
+				return (inter(sx, lo) && inter(sy, hi)) || (inter(sx, hi) && inter(sy, lo))
+			})
+			c.Check(after || compared, R, key, sl.Pos(), "the upper position cannot lie before the lower one", "the string is cut from one search result to another without anything that orders them (the second search ran on the whole string and the positions are never compared): input in which the second mark stands before the first panics with slice bounds out of range")
+		})
+	}
+}
